@@ -203,8 +203,10 @@ def h_comb(ctx, cfg):
   name = cfg.get("name", strat)          # every documented name of the strategy, item and attribute access, default call
   fn = comb if name == "default" else (getattr(comb, name) if cfg.get("attr") else comb[name])
   with Env(ctx) as E:
-    delay = ctx.split("delay", 1, cfg["D"])
+    delay = ctx.split("delay", cfg.get("Dmin", 1), cfg["D"])
     x = ctx.reals("x", N)
+    # an explicit initial state: y[-1], y[-2], ... (feedback comb) as the `memory` of the call
+    mem = ctx.reals("m", delay) if cfg.get("memory") else None
     if strat == "tau":
       tau = ctx.real("tau", 0, None, lo_open=True)
       filt = fn(delay, tau)
@@ -219,13 +221,14 @@ def h_comb(ctx, cfg):
     else:
       alpha = ctx.real("alpha")
       filt = fn(delay, alpha)
-    out = list(filt(list(x), zero=0))
+    out = list(filt(list(x), zero=0) if mem is None else filt(list(x), memory=list(mem), zero=0))
     ctx.prove(len(out) == N, "comb:one-output-per-input")
     for n in range(min(N, len(out))):
       if strat == "ff":
         want = x[n] + (alpha * x[n - delay] if n - delay >= 0 else 0)
       else:
-        want = x[n] + (alpha * out[n - delay] if n - delay >= 0 else 0)
+        past = out[n - delay] if n - delay >= 0 else (mem[delay - n - 1] if mem is not None else 0)
+        want = x[n] + alpha * past
       ctx.observe("y", out[n])
       ctx.prove(ctx.eq(out[n], want), "comb-difference-equation", "%s n=%d" % (strat, n))
     nn, dd = _terms(filt)
@@ -261,6 +264,18 @@ def h_gammatone(ctx, cfg):
       ctx.prove(And(ctx.lt(a2, a0), ctx.lt(-a0, a2), ctx.lt(a1, a0 + a2), ctx.lt(-a1, a0 + a2)),
                 "section-is-stable (Jury conditions)", "section %d" % i)
       _gain2_is(ctx, sec, zi, 1, "section-has-unit-gain-at-the-centre-frequency", "section %d" % i)
+    # every call designs a cascade of its own: editing one result (a CascadeFilter is a plain list of sections) must not
+    # show up in a later design with the same parameters
+    first = list(filt)
+    filt.append(filt[0]); del filt[1:2]
+    again = gammatone[strat](th, bw, **kw)
+    ctx.prove(again is not filt and len(again) == want_sections, "every-design-is-a-fresh-cascade",
+              "second design: %d sections, same object: %s" % (len(again), again is filt))
+    for i, (s1, s2) in enumerate(zip(first, again)):
+      n1, d1 = _terms(s1); n2, d2 = _terms(s2)
+      ctx.prove(And(*[ctx.eq(n1.get(k, 0), n2.get(k, 0)) for k in set(n1) | set(n2)] +
+                     [ctx.eq(d1.get(k, 0), d2.get(k, 0)) for k in set(d1) | set(d2)]),
+                "every-design-is-a-fresh-cascade", "section %d of the second design differs from the first design's" % i)
 
 
 def tasks(tier, seed):
@@ -276,6 +291,12 @@ def tasks(tier, seed):
     T.append(("h_resonator", {"strategy": strat}))
   for strat in ("fb", "tau", "ff"):
     T.append(("h_comb", {"strategy": strat, "D": 3 if not big else 5, "N": 5 if not big else 8, "inf": True}))
+    if strat != "ff":
+      # echoes of an explicit initial state, short and long delay lines
+      T.append(("h_comb", {"strategy": strat, "D": 3, "N": 4, "memory": True}))
+      T.append(("h_comb", {"strategy": strat, "Dmin": 17 if not big else 15, "D": 18 if not big else 20, "N": 3, "memory": True}))
+    else:
+      T.append(("h_comb", {"strategy": strat, "Dmin": 17, "D": 18, "N": 20}))
   for strat, names in (("fb", ("default", "alpha", "fb_alpha", "feedback_alpha")), ("tau", ("fb_tau", "feedback_tau")),
                        ("ff", ("ff_alpha", "feedforward_alpha"))):
     for i, name in enumerate(names):
